@@ -14,6 +14,46 @@ def counts(o):
     failed = sum(int(l.split()[5]) for l in o.splitlines() if l.startswith("test result:"))
     return passed, failed
 
+def confirm_shell(prop, ab, wt, src, sid, patch):
+    """demonstration is a shell script: demo.sh <worktree>; exit 0 = property holds"""
+    demo = os.path.join(src, "demo.sh")
+    sh(["git", "checkout", "--", "."], cwd=wt)
+    rec = {"id": sid, "property": prop, "confirmed_at": time.strftime("%Y-%m-%d %H:%M:%S"), "demo_kind": "shell script: demo.sh <worktree>"}
+    touched = [l[6:] for l in open(patch).read().splitlines() if l.startswith("+++ b/")]
+    rec["files_touched"] = touched
+    if any(not (t.startswith("src/") or t == "Cargo.toml") for t in touched):
+        print("REJECT: patch touches", touched); return 1
+    rc0, o0 = sh(["sh", demo, wt])
+    rec["demo_on_clean_tree"] = {"rc": rc0}
+    if rc0 != 0:
+        print("REJECT: demo.sh fails on the clean tree", o0[-1200:]); return 1
+    rc, o = sh(["git", "apply", patch], cwd=wt)
+    if rc != 0:
+        print("REJECT: patch does not apply", o); return 1
+    rc1, o1 = sh(["sh", demo, wt])
+    rec["demo_with_change"] = {"rc": rc1, "tail": o1[-400:]}
+    if rc1 == 0:
+        print("REJECT: demo.sh passes with the change"); sh(["git", "checkout", "--", "."], cwd=wt); return 1
+    rc, o = sh(["cargo", "test", "--workspace", "--no-fail-fast", "--offline"], cwd=wt)
+    p2, f2 = counts(o)
+    rec["suite_with_change"] = {"rc": rc, "passed": p2, "failed": f2}
+    sh(["git", "checkout", "--", "."], cwd=wt)
+    if rc != 0 or f2 != 0 or p2 < 840:
+        print("REJECT: suite", p2, f2); return 1
+    dst = os.path.join("/verif/seeded", sid)
+    os.makedirs(dst, exist_ok=True)
+    shutil.copy(patch, os.path.join(dst, "patch.diff"))
+    shutil.copy(demo, os.path.join(dst, "demo.sh"))
+    notes = open(os.path.join(src, "notes.md")).read() if os.path.exists(os.path.join(src, "notes.md")) else ""
+    open(os.path.join(dst, "notes.md"), "w").write(notes)
+    rec["breaks_property"] = prop
+    rec["needs_to_manifest"] = "see notes.md (written by the sub-agent that authored the change)"
+    rec["what_i_ran"] = ["sh demo.sh <worktree>   (clean tree: exit 0)", "git apply patch.diff ; sh demo.sh <worktree>   (exit %d)" % rc1, "cargo test --workspace --no-fail-fast --offline   (with the change: %d passed, %d failed)" % (p2, f2)]
+    json.dump(rec, open(os.path.join(dst, "meta.json"), "w"), indent=1)
+    print("CONFIRMED", sid, rec["demo_on_clean_tree"], rc1, rec["suite_with_change"])
+    return 0
+
+
 def main():
     prop, ab = sys.argv[1], sys.argv[2]
     wt = "/tmp/wt-" + prop
@@ -23,6 +63,8 @@ def main():
     sid = "%s-%s" % (prop, ab)
     patch = os.path.join(src, "patch.diff")
     demo = os.path.join(src, "demo.rs")
+    if not os.path.exists(demo) and os.path.exists(os.path.join(src, "demo.sh")):
+        return confirm_shell(prop, ab, wt, src, sid, patch)
     tname = "seed_demo_%s_%s" % (prop.lower(), ab.lower())
     tfile = os.path.join(wt, "tests", tname + ".rs")
     sh(["git", "checkout", "--", "."], cwd=wt)
@@ -41,7 +83,11 @@ def main():
         denv["RUSTFLAGS"] = "--cfg rtcm_rs_verif"
         denv["CARGO_TARGET_DIR"] = os.path.join(wt, "target", "hook")
     rec["demo_uses_hook_cfg"] = hook
-    rc, o = sh(["cargo", "test", "--offline", "--test", tname], cwd=wt, env=denv)
+    dcmd = ["cargo", "test", "--offline", "--test", tname]
+    if 'feature = "serde"' in open(demo).read():
+        dcmd = ["cargo", "test", "--offline", "--features", "serde", "--test", tname]
+        rec["demo_needs_features"] = ["serde"]
+    rc, o = sh(dcmd, cwd=wt, env=denv)
     p0, f0 = counts(o)
     rec["demo_on_clean_tree"] = {"rc": rc, "passed": p0, "failed": f0}
     if rc != 0 or f0 != 0 or p0 == 0:
@@ -49,7 +95,7 @@ def main():
     rc, o = sh(["git", "apply", patch], cwd=wt)
     if rc != 0:
         print("REJECT: patch does not apply", o); return 1
-    rc, o = sh(["cargo", "test", "--offline", "--test", tname], cwd=wt, env=denv)
+    rc, o = sh(dcmd, cwd=wt, env=denv)
     p1, f1 = counts(o)
     rec["demo_with_change"] = {"rc": rc, "passed": p1, "failed": f1}
     if rc == 0 or f1 == 0:
